@@ -208,6 +208,18 @@ def generate(seed, tier="quick"):
     owned = sorted({k for r in requests for k in r["owners"]})
     world["fc_keys"] = sorted(set(world["fc_keys"]) | set(owned))
     world["sync_fc"] = [k for k in world["fc_keys"] if rnd.random() < 0.15]
+    world["fc_anonymous"] = rnd.random() < 0.2  # the evaluator answers every key with two shared, message-less objects
+    if rnd.random() < 0.12:
+        # the shipped Dict based evaluators ("hardcoded" content evaluation): verdicts are fixed per key, the result
+        # objects are shared between all elements and have no message of their own
+        world["flavour"] = "dict"
+        fixed = dict(requests[0]["cer"])
+        fixed["format_constraints"] = {
+            k: {"format_constraint_fulfilled": rnd.random() < 0.4, "error_message": None} for k in world["fc_keys"]
+        }
+        world["dict_cer"] = fixed
+        for request in requests:
+            request["cer"] = dict(fixed, hints=request["cer"]["hints"])
     profile = rnd.choice([p for p in PROFILES if p != "zero"] * 4 + ["zero"])
     return {"property": PROP_ID, "seed": seed, "profile": profile, "world": world, "requests": requests}
 
@@ -259,6 +271,7 @@ def execute(scenario):
     verdict["observed"] = len(observed)
     verdict["completed"] = sum(1 for r in observed if "ok" in outcomes.get(r["rid"], {}))
     checked_elements = 0
+    world_flavour = scenario["world"].get("flavour", "sim")
     for request in observed:
         rid = request["rid"]
         outcome = strip_msg(outcomes.get(rid, {"missing": True}))
@@ -288,9 +301,28 @@ def execute(scenario):
             expected = references[rid].get(f"{position}|{segment_status}")
             got = {"ok": reported_by_position[position]}
             checked_elements += 1
-            if node.get("expect_fc") and "requirement_validation" in got["ok"]:
+            message = got["ok"].get("format_error_message") if isinstance(got["ok"], dict) else None
+            if message:
+                own = node["input"] or ""
+                foreign = [
+                    other["input"]
+                    for other, _ in nodes
+                    if other["t"] == "f" and other is not node and other["input"] and len(other["input"]) >= 5
+                    and other["input"] not in own and other["input"] in message
+                ]
+                if foreign:
+                    fail(
+                        verdict,
+                        "foreign-input-in-format-message",
+                        f"{rid} element {node['d']} (input {node['input']!r}): its format error message mentions the "
+                        f"input of another element: {message!r}",
+                    )
+            if node.get("expect_fc") and "requirement_validation" in got["ok"] and world_flavour != "dict":
                 want = expected_fc_result(node["expect_fc"], node["input"])
                 have = (got["ok"].get("format_validation_fulfilled"), got["ok"].get("format_error_message"))
+                if scenario["world"].get("fc_anonymous"):
+                    # the message is the library's own wording then; only the verdict is predictable
+                    want, have = want[:1], have[:1]
                 verdict["probes"]["fc_results_predicted"] = verdict["probes"].get("fc_results_predicted", 0) + 1
                 if tuple(have) != tuple(want):
                     fail(
